@@ -56,9 +56,11 @@ def _prune(keep_dir):
     for d in dirs:
         fl = os.path.basename(d).split('-')[0]
         by_flavour.setdefault(fl, []).append(d)
+    now = time.time()
     for fl, ds in by_flavour.items():
-        for d in ds[:-2]:
-            if d != keep_dir:
+        for d in ds[:-4]:
+            # never remove a build another check may be using (concurrent checks share the cache)
+            if d != keep_dir and now - os.path.getmtime(d) > 3600:
                 shutil.rmtree(d, ignore_errors=True)
 
 
